@@ -1,5 +1,6 @@
 """C15: cookies round-trip; forged signed cookies are never deserialised. See specs/Cookies.tla."""
 import io
+import hashlib
 import json
 import random
 from http.cookies import SimpleCookie
@@ -233,6 +234,22 @@ def run(chk):
         c = SimpleCookie()
         c.load((b'lk=' + rawa).decode('latin1'))
         attack('other-long-secret', sb, 'lk', c['lk'].value, -1, None)
+    # secrets that HMAC itself cannot tell apart (RFC 2104 key preparation: a key shorter than the 64-byte block is padded with
+    # zero bytes, a longer one is replaced by its digest) are still different secrets to the application
+    def hmac_key(k):
+        k = k.encode('utf8') if isinstance(k, str) else k
+        k = hashlib.md5(k).digest() if len(k) > 64 else k
+        return k.ljust(64, b'\0')
+    for sa, sb in (('k', 'k\x00'), ('s3cret', 's3cret\x00\x00'), ('k' * 70, hashlib.md5(b'k' * 70).digest()), ('k', 'k\x01'), ('k' * 64, 'k' * 64 + '\x00')):
+        rawa, _st = set_and_capture(app, 'hk', {'user': 'alice'}, secret=sa, via='response')
+        if rawa is None:
+            continue
+        c = SimpleCookie()
+        c.load((b'hk=' + rawa).decode('latin1'))
+        n0 = len(recs)
+        attack('hmac-equivalent-secret' if hmac_key(sa) == hmac_key(sb) else 'other-secret', sb, 'hk', c['hk'].value, -1, None)
+        for t in recs[n0:]:
+            t['edited'] = 'cookie minted under secret %r presented to a reader using secret %r' % (sa, sb)
     # the Cookie header of a request is rewritten through the request object (request['HTTP_COOKIE'] = ...): what was verified
     # before says nothing about the new header
     for sec, name, v, w in pool[:4]:
@@ -263,7 +280,8 @@ def run(chk):
         else:
             chk.violation('C15: %s fails: signed cookie edit %s at %s (%r): present=%s pickle.loads calls=%s'
                           % (sorted(cl), t['cls'], t['pos'], t.get('edited'), t['present'], t['loads']),
-                          {'kind': 'signed', 'class': t['cls'], 'pos': t['pos'], 'edited': t.get('edited'), 'clauses': sorted(cl)})
+                          {'kind': 'signed', 'class': t['cls'], 'pos': t['pos'], 'edited': t.get('edited'), 'clauses': sorted(cl),
+                           'secrets_are_the_same_hmac_key': t['cls'] == 'hmac-equivalent-secret'})
     drift = sorted(set(missing) - set(fails))
     if drift:
         chk.drift('C15: %d records: number of pickle.loads calls for a genuine cookie is not 1' % len(drift))
